@@ -149,6 +149,8 @@ def make_config(rng):
     if rng.random() < 0.4:
         sol["src_loc"] = [float(rng.uniform(0, xmax)), float(rng.uniform(0, ymax))]
     raw = {"domain": dom, "towers": towers, "met": met, "solver": sol}
+    if rng.random() < 0.4:
+        raw["output"] = {"format": "netcdf", "directory": str(rng.choice(["results/spring campaign", "./out", "out", "../shared/out", "/data/bldfm/out"]))}
     return raw, dict(halo=hk, levels=lk, forcing=fk, steps=ns, towers=nt, closure=closure, footprint=fp, analytic=bool(sol.get("analytic")),
                      precision=sol["precision"], modes=("default" if "modes" not in dom else "one_axis_over" if (dom["modes"][0] > nx) != (dom["modes"][1] > ny) else "explicit"),
                      src_loc="src_loc" in sol)
@@ -227,10 +229,24 @@ def run_case(case):
     except Exception as e:  # noqa
         return {"harness_error": f"generated configuration rejected: {e!r} {raw}"}
     # YAML == dict
-    p = os.path.abspath(f"c13_{case['idx']}.yaml")
+    # the file lies where users keep such files: in the working directory, in a sub-folder (with a blank in its name) addressed relatively,
+    # or somewhere else addressed absolutely - what it says does not depend on where it lies
+    where = ["cwd", "subfolder_relative", "absolute", "pathlib"][case["idx"] % 4]
+    if where == "cwd":
+        p = f"c13_{case['idx']}.yaml"
+    else:
+        os.makedirs("site configs", exist_ok=True)
+        p = os.path.join("site configs", f"c13_{case['idx']}.yaml")
+        if where != "subfolder_relative":
+            p = os.path.abspath(p)
     with open(p, "w") as f:
         yaml.safe_dump(raw, f)
-    cfg_y = load_config(p)
+    if where == "pathlib":
+        import pathlib
+
+        cfg_y = load_config(pathlib.Path(p))
+    else:
+        cfg_y = load_config(p)
     os.unlink(p)
     counters["yaml_roundtrips"] += 1
     if cfg_y != cfg_parsed:
